@@ -2,6 +2,7 @@ package props
 
 import (
 	"bytes"
+	"crypto/tls"
 	"fmt"
 	"hash/fnv"
 	"sync"
@@ -70,6 +71,9 @@ type c08Scenario struct {
 	holdConn int
 	holdSeq  uint32
 	mux      bool // handlers registered by short name on a shared ServeMux, several commands
+	// earlier events in the life of the server / mux: 1 = a connection whose TLS handshake
+	// failed, 2 = a connection whose handler panicked, followed by a handler registration
+	prelude int
 }
 
 // c08Body: body size of message s on connection i (below, at and above the 1 KiB pooled read buffer)
@@ -97,8 +101,11 @@ func runC08(c *ev.Case, ctx *lib.Ctx, sc c08Scenario) {
 	release := make(chan struct{})
 	held := make(chan struct{}, 1)
 	hf := diam.HandlerFunc(func(dc diam.Conn, m *diam.Message) {
-		i := byAddr[dc.RemoteAddr().String()]
 		seq := m.Header.HopByHopID
+		if seq == 0xdeadbeef {
+			panic("verif: handler panic on an earlier connection")
+		}
+		i := byAddr[dc.RemoteAddr().String()]
 		order.add(i)
 		mons[i].enter(seq)
 		// the message must be the one that was sent on this connection (no bytes of another connection)
@@ -121,8 +128,9 @@ func runC08(c *ev.Case, ctx *lib.Ctx, sc c08Scenario) {
 		mons[i].leave()
 	})
 	var h diam.Handler = hf
+	var mux *diam.ServeMux
 	if sc.mux {
-		mux := diam.NewServeMux()
+		mux = diam.NewServeMux()
 		for _, n := range []string{"GTR", "CER", "GAR"} {
 			mux.Handle(n, hf)
 		}
@@ -137,6 +145,38 @@ func runC08(c *ev.Case, ctx *lib.Ctx, sc c08Scenario) {
 	ln := memnet.NewListener()
 	srv := &diam.Server{Handler: h, Dict: ctx.Parser}
 	serveDone := make(chan error, 1)
+	if !sc.dialled {
+		go func() { serveDone <- srv.Serve(ln) }()
+	}
+	if sc.prelude&1 != 0 && !sc.dialled {
+		if cfg, err := c15TLSConfig(); err == nil {
+			bad := memnet.NewConn()
+			bad.Remote = memnet.Addr{Net: "tcp", Str: "10.9.9.9:1"}
+			ln.Offer(tls.Server(bad, cfg))
+			bad.Feed([]byte("GET / HTTP/1.0\r\n\r\n"))
+			synctest.Wait()
+			bad.FeedEOF()
+			synctest.Wait()
+			c.Event("prelude_failed_tls_handshakes", 1)
+		}
+	}
+	if sc.prelude&2 != 0 {
+		bad := memnet.NewConn()
+		bad.Remote = memnet.Addr{Net: "tcp", Str: "10.9.9.8:1"}
+		if sc.dialled {
+			diam.NewConn(bad, "x", h, ctx.Parser)
+		} else {
+			ln.Offer(bad)
+		}
+		bad.Feed(c08Msg(0, 0xdeadbeef, 12, false))
+		synctest.Wait()
+		if mux != nil {
+			mux.Handle("GTR", hf) // the application (or sm.Client.Dial) registers a handler afterwards
+		}
+		bad.FeedEOF()
+		synctest.Wait()
+		c.Event("prelude_handler_panics", 1)
+	}
 	if sc.dialled {
 		for i := range conns {
 			if _, err := diam.NewConn(conns[i], "x", h, ctx.Parser); err != nil {
@@ -145,7 +185,6 @@ func runC08(c *ev.Case, ctx *lib.Ctx, sc c08Scenario) {
 			}
 		}
 	} else {
-		go func() { serveDone <- srv.Serve(ln) }()
 		for i := range conns {
 			ln.Offer(conns[i])
 		}
@@ -285,7 +324,10 @@ func TestC08(t *testing.T) {
 		}
 		sc.holdConn = r.IntN(sc.K)
 		sc.holdSeq = uint32(1 + r.IntN(min(sc.perConn[sc.holdConn], 3)))
-		c.Class("K=%d/dialled=%v/pattern=%d/handler=%d/mux=%v/long=%v", sc.K, sc.dialled, sc.pattern, sc.handler, sc.mux, long)
+		if r.IntN(3) == 0 {
+			sc.prelude = 1 + r.IntN(3)
+		}
+		c.Class("K=%d/dialled=%v/pattern=%d/handler=%d/mux=%v/long=%v/prelude=%d", sc.K, sc.dialled, sc.pattern, sc.handler, sc.mux, long, sc.prelude)
 		leak := runBubbleWD(t, rec, c, 60*time.Second, func() { runC08(c, ctx, sc) })
 		if leak != "" && !c.Failed() {
 			c.Fail(ev.Sig{"op": "bubble-leak"}, nil, nil, "goroutines left blocked after the scenario ended: %s (%+v)", leak, sc)
